@@ -1,6 +1,6 @@
 """C02 - Rate and rule expressions evaluate to their mathematical meaning."""
 import os
-CONTRACT_MODULES = ['types_terms']
+CONTRACT_MODULES = ['types_terms', 'types_rules']
 SPEC_MODULES = ['functions', 'sympy_stub']
 LEVEL = 'proof'
 ASSUMPTIONS = [
